@@ -47,8 +47,10 @@ PASS_THROUGH = ("ImplicitCastExpr", "ParenExpr", "ExprWithCleanups", "Materializ
 
 
 class Walker:
-    def __init__(self, fn):
+    def __init__(self, fn, prefix="L_", take_then=False):
         self.fn = fn
+        self.prefix = prefix
+        self.take_then = take_then
         self.locals = {}       # decl id -> canonical name
         self.realname = {}
         self.leaves = []       # (name, coq expr, comment)
@@ -159,6 +161,8 @@ class Walker:
             f = self.ref(n["inner"][0])
             if f == "floor" and len(n["inner"]) == 2:
                 return "(inject_Z (Qfloor %s))" % self.rexpr(n["inner"][1])
+            if f == "ceil" and len(n["inner"]) == 2:
+                return "(inject_Z (Qceiling %s))" % self.rexpr(n["inner"][1])
             raise Refusal("unsupported call in expression: " + f)
         if k in ("DeclRefExpr", "MemberExpr", "ArraySubscriptExpr", "CXXOperatorCallExpr"):
             return '(e "%s"%%string)' % self.ref(n)
@@ -167,7 +171,7 @@ class Walker:
     def leaf(self, target, expr, comment):
         key = re.sub(r"[^A-Za-z0-9]+", "_", target).strip("_")
         self.count[key] = self.count.get(key, 0) + 1
-        name = "L_%s_%d" % (key, self.count[key])
+        name = "%s%s_%d" % (self.prefix, key, self.count[key])
         self.leaves.append((name, expr, comment))
         return name
 
@@ -187,7 +191,10 @@ class Walker:
             if g == "nz(multi_Dflag)":
                 if not n.get("hasElse"):
                     raise Refusal("init_mix: no else branch for multi_Dflag")
-                self.stmt(inner[2], guards + ["!nz(multi_Dflag)"])
+                if self.take_then:
+                    self.stmt(inner[1], guards + ["nz(multi_Dflag)"])
+                else:
+                    self.stmt(inner[2], guards + ["!nz(multi_Dflag)"])
                 return
             self.stmt(inner[1], guards + [g])
             if n.get("hasElse"):
@@ -276,7 +283,7 @@ def coq_string(s):
     return '"%s"%%string' % s.replace('"', '""')
 
 
-def render(w):
+def render(w, w2=None):
     out = ["(* GENERATED by translator/c11_initmix.py from src/phreeqcpp/transport.cpp (Phreeqc::init_mix). Do not edit. *)",
            "From Coq Require Import QArith Qround ZArith String List.", "Import ListNotations.", "Open Scope Q_scope.", "",
            "(* canonical local names: " + ", ".join("%s=%s" % (k, v) for k, v in sorted(w.realname.items())) + " *)", ""]
@@ -287,6 +294,17 @@ def render(w):
     out.append("Definition shape : list (string * list string) := [")
     out.append(";\n".join("  (%s, [%s])" % (coq_string(t), "; ".join(coq_string(g) for g in gs)) for t, gs in w.shape))
     out.append("].")
+    if w2 is not None:
+        out.append("")
+        out.append("(* ---- the multi_D (multicomponent diffusion) branch; canonical local names: " +
+                   ", ".join("%s=%s" % (k, v) for k, v in sorted(w2.realname.items())) + " *)")
+        for name, expr, comment in w2.leaves:
+            out.append("(* %s *)" % comment)
+            out.append("Definition %s (e : string -> Q) : Q := %s." % (name, expr))
+        out.append("")
+        out.append("Definition shape_mcd : list (string * list string) := [")
+        out.append(";\n".join("  (%s, [%s])" % (coq_string(t), "; ".join(coq_string(g) for g in gs)) for t, gs in w2.shape))
+        out.append("].")
     return "\n".join(out) + "\n"
 
 
@@ -301,7 +319,17 @@ def translate():
         raise Refusal("init_mix has no body")
     w = Walker(fns[0])
     w.stmt(body[0], [])
-    return render(w)
+    # second pass: the `if (multi_Dflag)` branch itself (same numbering of the function-level locals)
+    w2 = Walker(fns[0], prefix="D_", take_then=True)
+    top = [c for c in body[0].get("inner", []) if c.get("kind") == "DeclStmt"]
+    for d in top:
+        w2.stmt(d, [])
+    w2.leaves, w2.shape, w2.count = [], [], {}
+    ifs = [c for c in body[0].get("inner", []) if c.get("kind") == "IfStmt" and w2.gtext(c["inner"][0]) == "nz(multi_Dflag)"]
+    if len(ifs) != 1:
+        raise Refusal("init_mix: expected exactly one top-level if (multi_Dflag)")
+    w2.stmt(ifs[0], [])
+    return render(w, w2)
 
 
 # ----------------------------------------------------------------------------- multi_D: the element-name tests
